@@ -210,10 +210,13 @@ class _SimTimeModule:
         proc = current()
         if proc is not None and proc.dead:
             raise SimKill()
-        clock.advance(max(0.0, float(dt)))
         if proc is not None:
             proc.sim.probe('simulated_sleep')
-        kernel.yield_point()
+        sched = proc.sim.sched if proc is not None else None
+        if sched is not None and kernel.current_task() is not None:
+            sched.sleep(float(dt))
+        else:
+            clock.advance(max(0.0, float(dt)))
 
     def __getattr__(self, name):
         return getattr(_real_time_mod, name)
